@@ -382,7 +382,7 @@ func runC11(b *mon.B) {
 			b.Inconclusive("configuration did not load: %v", err)
 			continue
 		}
-		ref.Net.KeepLog = false
+		ref.Net.SetKeepLog(false)
 		rc := newRefConn(ref, 1, []byte(sc.Key))
 		sid := uint32(0)
 		for k := 0; k < perCfg; k++ {
